@@ -7,6 +7,7 @@
   every `undef`.
 -/
 import PtProofs.CallsLemmas
+import PtProofs.C12Multi   -- several results, trace_call, selective inlining, tag_all (same property)
 namespace Pt
 open Calls
 
